@@ -1071,7 +1071,8 @@ def check_dates(ctx, model, falcon, quick):
         else:
             off = rng.choice([3600, -3600, 19800, -34200, 50400, -43200, 1, -1, 86399, -86399, 7200, rng.randint(-86399, 86399)])
             dts.append(d.replace(tzinfo=dtm.timezone(dtm.timedelta(seconds=off))))
-    dts += [dtm.datetime(1, 1, 1, 0, 0, 0, tzinfo=dtm.timezone(dtm.timedelta(hours=2))),
+    dts += [dtm.datetime(2020, 1, 1, 12, 0, 0, tzinfo=dtm.timezone(dtm.timedelta(hours=2))), dtm.datetime(999, 12, 31, 23, 59, 59),
+            dtm.datetime(1, 1, 1, 0, 0, 0, tzinfo=dtm.timezone(dtm.timedelta(hours=2))),
             dtm.datetime(9999, 12, 31, 23, 59, 59, tzinfo=dtm.timezone(dtm.timedelta(hours=-2))),
             dtm.datetime(999, 12, 31, 23, 0, 0, tzinfo=dtm.timezone(dtm.timedelta(hours=-1))),
             dtm.datetime(2024, 2, 29, 23, 59, 59, 999999), dtm.datetime(2000, 1, 1, 0, 0, 0, 1, tzinfo=utc)]
